@@ -517,3 +517,28 @@ pub fn pagerank(rg: &RG, damping: f64, iters: usize) -> Vec<f64> {
     }
     p
 }
+
+/// Hop distances from `s` and the number of shortest walks (as edge sequences, parallel edges
+/// distinct) to every node.
+pub fn path_counts(rg: &RG, s: usize) -> (Vec<Option<usize>>, Vec<u64>) {
+    let n = rg.n;
+    let h = hops(rg, s);
+    let mut order: Vec<usize> = (0..n).filter(|&v| h[v].is_some()).collect();
+    order.sort_by_key(|&v| h[v].unwrap());
+    let mut sigma = vec![0u64; n];
+    sigma[s] = 1;
+    for &v in &order {
+        if v == s {
+            continue;
+        }
+        let dv = h[v].unwrap();
+        let mut c = 0u64;
+        for e in &rg.edges {
+            if e.d == v && e.s != v && h[e.s] == Some(dv - 1) {
+                c = c.saturating_add(sigma[e.s]);
+            }
+        }
+        sigma[v] = c;
+    }
+    (h, sigma)
+}
